@@ -4,7 +4,9 @@ from kv.checks import _repl
 PID = "C09"
 META = {
     "level": "model_checking",
-    "text": "KRepl's delete/purge/tombstone arms are explored exhaustively by TLC (action property NoResurrection); model behaviours and "
+    "text": "KRepl's delete/purge/tombstone arms (and, in the thorough tier, RUV trimming with a changelog window and lagging "
+            "consumers: NoDroppedDeletion) are explored exhaustively by TLC (action property NoResurrection); one history per "
+            "apply-arm (live-onto-tomb, tomb-over-live, refused-refresh, ...) is exported and replayed; model behaviours and "
             "seeded random lifecycle histories with deletes, recycle-bin purges, tombstone reaping and simulated delays around and beyond "
             "the real retention and changelog windows run on 2-3 real servers; TLC judges every observed step: a deleted entry never "
             "becomes live again on a replica that saw it deleted nor anywhere at quiescence, refused exchanges change nothing, and the "
@@ -16,4 +18,4 @@ META = {
 }
 def run(tier, replay):
     _repl.run_property(PID, tier, replay, META, "lifecycle", sorted(glob.glob("/verif/spec/witness/C09-*.ndjson")),
-                       cfgs_quick=["KReplMC_life_quick"], cfgs_thorough=["KReplMC_life", "KReplMC_2r"])
+                       cfgs_quick=["KReplMC_life_quick"], cfgs_thorough=["KReplMC_life", "KReplMC_trim_quick", "KReplMC_2r"])
